@@ -551,6 +551,10 @@ func (en *Engine) applyContract(st *State, f *Frame, x *ssa.Call, fn *ssa.Functi
 	for _, e := range fc.Ensures {
 		st.assume(sc.evalBool(e.Expr))
 	}
+	for _, e := range fc.AssumedEnsures {
+		st.assume(sc.evalBool(e.Expr))
+		en.assumedUsed[name+" (assume-ensures: "+e.Src+")"] = true
+	}
 	f.env[x] = res
 	return extra
 }
